@@ -1,6 +1,7 @@
 package rules
 
 import (
+	"go/constant"
 	"fmt"
 	"go/token"
 	"go/types"
@@ -1063,7 +1064,7 @@ func runNip11Nil(c *core.Ctx) {
 // in fn, or (for a closure) at the point where the closure is made.
 func nonNilGuarded(fn *ssa.Function, b *ssa.BasicBlock, ptr string) bool {
 	for _, g := range an.Guards(fn, b) {
-		if is, nonNilWhenTrue := nilTest(g.V, ptr); is && g.True == nonNilWhenTrue {
+		if valueImpliesNonNil(g.V, g.True, ptr, 0) {
 			return true
 		}
 	}
@@ -1077,6 +1078,63 @@ func nonNilGuarded(fn *ssa.Function, b *ssa.BasicBlock, ptr string) bool {
 		if mk != nil {
 			return nonNilGuarded(parent, mk.Block(), ptr)
 		}
+	}
+	return false
+}
+
+// valueImpliesNonNil: the boolean v having the value val implies ptr != nil.
+// v is a nil test of ptr, a negation, or a flag (local or captured, stored
+// once) holding a short-circuit combination of such tests: `v == val` rules
+// out every phi edge carrying the constant !val, and each remaining edge must
+// imply ptr != nil by its own value or by the guards of the block it leaves.
+func valueImpliesNonNil(v ssa.Value, val bool, ptr string, depth int) bool {
+	if depth > 6 {
+		return false
+	}
+	if is, nonNilWhenTrue := nilTest(v, ptr); is {
+		return val == nonNilWhenTrue
+	}
+	switch x := v.(type) {
+	case *ssa.UnOp:
+		if x.Op == token.NOT {
+			return valueImpliesNonNil(x.X, !val, ptr, depth+1)
+		}
+		if x.Op == token.MUL {
+			if lv := an.LoadedValue(x); lv != ssa.Value(x) {
+				return valueImpliesNonNil(lv, val, ptr, depth+1)
+			}
+		}
+	case *ssa.Phi:
+		if x.Parent() == nil {
+			return false
+		}
+		n := 0
+		for i, e := range x.Edges {
+			if k, ok := e.(*ssa.Const); ok && k.Value != nil && k.Value.Kind() == constant.Bool {
+				if constant.BoolVal(k.Value) != val {
+					continue // this edge cannot produce val
+				}
+				// constant val: the edge itself says nothing; its guards must
+			}
+			n++
+			pred := x.Block().Preds[i]
+			ok := valueImpliesNonNil(e, val, ptr, depth+1)
+			if _, isConst := e.(*ssa.Const); isConst {
+				ok = false
+			}
+			if !ok {
+				for _, g := range an.Guards(x.Parent(), pred) {
+					if valueImpliesNonNil(g.V, g.True, ptr, depth+1) {
+						ok = true
+						break
+					}
+				}
+			}
+			if !ok {
+				return false
+			}
+		}
+		return n > 0
 	}
 	return false
 }
